@@ -297,3 +297,35 @@ Qed.
 
 Lemma rstrip_nil : rstrip [] = [].
 Proof. reflexivity. Qed.
+
+(** ** [split] of a [join] *)
+Lemma join_cons2 sep x y l : join sep (x :: y :: l) = x ++ sep ++ join sep (y :: l).
+Proof. reflexivity. Qed.
+
+Lemma split_fuel_join c : forall lines x fuel acc,
+  ~ In c x -> Forall (fun y => ~ In c y) lines ->
+  (List.length (join [c] (x :: lines)) < fuel)%nat ->
+  split_fuel fuel [c] (join [c] (x :: lines)) acc = (rev acc ++ x) :: lines.
+Proof.
+  induction lines as [|y ls IH]; intros x fuel acc Hx Hl Hf.
+  - cbn [join] in *. apply split_fuel_absent; assumption.
+  - rewrite join_cons2 in *. inversion Hl as [|? ? Hy Hls]; subst.
+    revert fuel acc Hf. induction x as [|d x IHx]; intros fuel acc Hf.
+    + destruct fuel as [|f]; [exfalso; clear -Hf; lia|]. cbn [app split_fuel prefixb]. rewrite Ascii.eqb_refl. cbn [andb List.length skipn].
+      rewrite IH; try assumption.
+      * rewrite app_nil_r. reflexivity.
+      * unfold str in *. rewrite !app_length in Hf. cbn [List.length] in Hf. lia.
+    + destruct fuel as [|f]; [exfalso; clear -Hf; lia|]. cbn [app split_fuel prefixb].
+      assert (Ascii.eqb c d = false) as ->.
+      { apply Ascii.eqb_neq. intros ->. apply Hx. left; reflexivity. }
+      cbn [andb]. rewrite IHx.
+      * cbn [rev]. rewrite <- app_assoc. reflexivity.
+      * intros I; apply Hx; right; exact I.
+      * unfold str in *. rewrite !app_length in *. cbn [List.length] in *. lia.
+Qed.
+
+Lemma split_join c lines : lines <> [] -> Forall (fun y => ~ In c y) lines -> split [c] (join [c] lines) = lines.
+Proof.
+  intros N H. destruct lines as [|x ls]; [congruence|]. inversion H; subst.
+  unfold split. rewrite split_fuel_join; auto.
+Qed.
